@@ -354,6 +354,12 @@ theorem applyRes_sim (cfg : Cfg) {pol : Policy} (hpol : TimeFree pol) (step : Na
       · exact ⟨h.st, by simp [List.map_append, h.cmds, cE], rfl, h.still, h.exec⟩
   | failed exc failedAt =>
     simp only [applyRes]
+    by_cases hb : b.stillInProgress = true
+    · have ha : a.stillInProgress = true := h.still.trans hb
+      simp only [ha, hb, ↓reduceIte]
+      exact h
+    have ha : ¬ a.stillInProgress = true := fun hx => hb (h.still.symm.trans hx)
+    rw [if_neg ha, if_neg hb]
     rw [retryDecision_timeFree cfg hpol step (failedAt - a.exec.firstAt) (failedAt - b.exec.firstAt), e5]
     cases retryDecision cfg pol step (failedAt - b.exec.firstAt) (b.exec.attempts + 1) exc with
     | retry d => exact ⟨h.st, by simp [List.map_append, h.cmds, cE], h.out, h.still, h.exec⟩
